@@ -67,13 +67,13 @@ def isLearnCode (f : Family) (code : Nat) : Bool := f.row.learnCodes.contains co
 
 /-! ### objects: identity + "namespace set" + "host set" -/
 
-def ident (o : Obj) : Nat := o / 4
-def hasNs (o : Obj) : Bool := (o / 2) % 2 == 1
-def hasHost (o : Obj) : Bool := o % 2 == 1
+def ident (o : Nat) : Nat := o / 4
+def hasNs (o : Nat) : Bool := (o / 2) % 2 == 1
+def hasHost (o : Nat) : Bool := o % 2 == 1
 
 /-- mirrors the fallback tail of IterEnumerateInstances / IterEnumerateInstancePaths:
     `if path.namespace is None: path.namespace = namespace; if path.host is None: path.host = self.host` -/
-def complete (o : Obj) : Obj :=
+def complete (o : Nat) : Nat :=
   let o1 := if hasNs o then o else o + 2
   if hasHost o1 then o1 else o1 + 1
 
@@ -137,10 +137,10 @@ def openParamErr (a : Args) : Option Nat :=
     | .int k => if k > (openMaxTimeout : Int) then some CIM_ERR_INVALID_PARAMETER else none
     | _ => none
 
-/-- status of the traditional operation on this server: the namespace must exist, then the
-    repository answers (`tradErr` / `tradObjs`) -/
-def tradErrOf (s : Pull.State) (a : Args) : Option Nat :=
-  if s.nss.contains a.ns then a.tradErr else some CIM_ERR_INVALID_NAMESPACE
+/-- status of the traditional operation (None = it succeeds with `tradObjs`).  The harness observes it on the
+    real connection; it is *not* derived from the namespace list, because the operations differ there
+    (the mock's ExecQuery answers CIM_ERR_NOT_SUPPORTED before it looks at the namespace) -/
+def tradErrOf (_s : Pull.State) (a : Args) : Option Nat := a.tradErr
 
 /-- mirrors MainProvider.Open…(): pull enabled?, namespace, open params, the traditional
     provider method, `_open_response` (= C14 `stepOpen`) -/
@@ -316,7 +316,7 @@ def close (c : Conn) (g : Gen) : Conn × Gen × Res :=
   | _ => (c, .finished, .ok)
 
 /-- `gen.throw(e)`: the exception is raised at the `yield` -/
-def throw (c : Conn) (g : Gen) (e : PyExc) : Conn × Gen × Res :=
+def throwAt (c : Conn) (g : Gen) (e : PyExc) : Conn × Gen × Res :=
   match g with
   | .pulling a _ eos ctx => handleErr c a e eos ctx
   | _ => (c, .finished, .raise e)
@@ -365,36 +365,36 @@ inductive Ev where
   | setDisabled (b : Bool)     -- the server's pull capability changes
   deriving Repr
 
-def upd {α} (f : Nat → α) (i : Nat) (v : α) : Nat → α := fun j => if j = i then v else f j
+def setAt {α} (f : Nat → α) (i : Nat) (v : α) : Nat → α := fun j => if j = i then v else f j
 
-def step (w : World) (ev : Ev) : World × Res :=
+def stepW (w : World) (ev : Ev) : World × Res :=
   match ev with
   | .call a =>
     if a.fam.row.isLazy then
-      ({ w with gens := upd w.gens w.n (.notStarted a), n := w.n + 1 }, .ok)
+      ({ w with gens := setAt w.gens w.n (.notStarted a), n := w.n + 1 }, .ok)
     else
       let r := callEager w.conn a
-      ({ w with conn := r.1, gens := upd w.gens w.n .finished, n := w.n + 1 }, r.2)
+      ({ w with conn := r.1, gens := setAt w.gens w.n .finished, n := w.n + 1 }, r.2)
   | .next g =>
     let r := next w.conn (w.gens g)
-    ({ w with conn := r.1, gens := upd w.gens g r.2.1 }, r.2.2)
+    ({ w with conn := r.1, gens := setAt w.gens g r.2.1 }, r.2.2)
   | .close g =>
     let r := close w.conn (w.gens g)
-    ({ w with conn := r.1, gens := upd w.gens g r.2.1 }, r.2.2)
+    ({ w with conn := r.1, gens := setAt w.gens g r.2.1 }, r.2.2)
   | .drop g =>
     let r := close w.conn (w.gens g)
-    ({ w with conn := r.1, gens := upd w.gens g r.2.1 }, .ok)
+    ({ w with conn := r.1, gens := setAt w.gens g r.2.1 }, .ok)
   | .throw g e =>
-    let r := throw w.conn (w.gens g) e
-    ({ w with conn := r.1, gens := upd w.gens g r.2.1 }, r.2.2)
+    let r := throwAt w.conn (w.gens g) e
+    ({ w with conn := r.1, gens := setAt w.gens g r.2.1 }, r.2.2)
   | .setDisabled b =>
     ({ w with conn := { w.conn with srv := { w.conn.srv with disabled := b } } }, .ok)
 
-def run (w : World) : List Ev → World × List Res
+def runW (w : World) : List Ev → World × List Res
   | [] => (w, [])
   | ev :: evs =>
-    let r := step w ev
-    let rr := run r.1 evs
+    let r := stepW w ev
+    let rr := runW r.1 evs
     (rr.1, r.2 :: rr.2)
 
 /-- a fresh connection created with `use_pull_operations = u` to a server in state `s` -/
